@@ -219,8 +219,11 @@ where
             return Ok(());
         }
         if let Some(head) = self.head {
-            if slice.len() > Label::MAX_LEN - (self.len() - head) {
+            if slice.len() > Label::MAX_LEN - (self.len() - head - 1) {
                 return Err(PushError::LongLabel);
+            }
+            if self.len() + slice.len() > 254 {
+                return Err(PushError::LongName);
             }
         } else {
             if slice.len() > Label::MAX_LEN {
